@@ -347,6 +347,12 @@ func worldSessions(w *World) {
 			}) {
 				viol("ownership", "proxies-survive-disconnect", "proxies %v still bound 5 s after their session disconnected; history: %v", held, history)
 			}
+			// the registrations may still be in flight when the client has gone: the server processes them when they
+			// arrive and tears the session down when it reads the end of the stream. Until then a registration of the
+			// dead session may legitimately exist for a moment, so the model waits for the server to have let go of the
+			// dead client's transport before it reasons about these names again.
+			w.WaitUntil(20*time.Second, 50*time.Millisecond, func() bool { return s.c.ServerGone() })
+			time.Sleep(300 * time.Millisecond)
 			// whatever became of the in-flight registrations, the names are free again shortly after the session ended
 			ns := newLogin("ux")
 			w.Check("C12.names-free-after-drop-during-registration")
